@@ -223,7 +223,16 @@ func vcardParse(b []byte) (res string) {
 
 // annotate applies the text codec the client's struct mapping would apply to the
 // character data directly inside an element of this name.
-func annotate(ns, local string, text []byte) string {
+//
+// The codecs of /repo (Status, Href, ETag, Time) are code under test as well: a panic of
+// one of them is recovered here and reported as "x" (the model then has no value for the
+// element), the client call itself is observed separately under its own recover.
+func annotate(ns, local string, text []byte) (ann string) {
+	defer func() {
+		if recover() != nil {
+			ann = "x"
+		}
+	}()
 	switch {
 	case local == "status":
 		if len(text) == 0 {
@@ -651,7 +660,19 @@ func observe(c caseIn) string {
 func pairCase(body string) string {
 	var ms verifhook.MultiStatus
 	obs := "-"
-	if err := xml.NewDecoder(strings.NewReader(body)).Decode(&ms); err == nil {
+	decodeErr := func() (err error) {
+		defer func() {
+			if recover() != nil {
+				err = nil
+				ms.Responses = nil
+				obs = "((panic))"
+			}
+		}()
+		return xml.NewDecoder(strings.NewReader(body)).Decode(&ms)
+	}()
+	if obs != "-" {
+		// the decoder of the code under test panicked: one (panic) outcome
+	} else if err := decodeErr; err == nil {
 		var outs []string
 		for i := range ms.Responses {
 			outs = append(outs, func() (out string) {
